@@ -38,7 +38,12 @@ DEFAULT_MAX_ITER = 100_000
 
 def gen_case(rng, big: bool):
     mm = 10 if big else 6
-    if rng.random() < 0.12:   # tiny LPs: the only ones on which solve_lp_interior reaches OPTIMAL
+    r0 = rng.random()
+    if r0 < 0.05:    # one positive row: where solve_lp_interior actually converges to OPTIMAL
+        n = rng.randint(1, 2)
+        fam, c, A, b = "onerow", [rng.randint(-4, 4) for _ in range(n)], [[rng.randint(1, 4) for _ in range(n)]], \
+            [rng.randint(1, 8)]
+    elif r0 < 0.15:  # tiny LPs
         fam, c, A, b = gen_lp(rng, 2, 2)
         fam = "tiny:" + fam
     else:
